@@ -19,9 +19,10 @@ RULE = ("Case = n in 30..300 true events with irregular gaps in [0.5, 10] s rege
         "returned pairs (the deterministic bound of a least-squares slope under |jitter| <= J); in linear mode f is "
         "affine (second difference ~ 0). Non-trivial = events missing on both sides AND |drift| > 10 ppm. "
         "Distinct = distinct case hash.")
-ASSUMPTIONS = ["'irregular spacing' is read as gaps that vary over the range: nearly periodic trains (all gaps within one "
-               "0.1 s bin of each other) are not generated - with an arbitrary offset and missing end events their "
-               "correspondence is not identifiable",
+ASSUMPTIONS = ["'irregular spacing' is read as gaps that vary over the range: nearly periodic trains (all gaps within a "
+               "few 0.1 s bins of each other; the narrowest generated class is a band 1 s wide) are not generated - with "
+               "an arbitrary offset and missing end events their correspondence is not identifiable (scratch runs: the "
+               "unchanged code returns shifted pairs for 1-50 % of trains whose gaps all lie within 0.2 s)",
                "default tbin=0.1 only; inputs are float64, sorted, one dimensional",
                "held-out times lie inside the span of the returned pairs (no extrapolation claim)",
                "the drift tolerance assumes the reported drift is a least-squares slope over the returned pairs"]
